@@ -923,7 +923,7 @@ class Fn:
             return self.binary(e, blk, exp)
         if k == "cast":
             return self.cast(e, blk)
-        if k == "field" and e.recv.kind == "var" and e.recv.name == "self":
+        if k == "field" and e.recv.kind == "var" and e.recv.name == "self" and self.visible("self." + e.name):
             v = self.lookup("self." + e.name, e)
             return v.lean, v.ty
         if k == "field":
@@ -1170,7 +1170,7 @@ class Fn:
 
     def mcall(self, e, blk, exp):
         nm = e.name
-        sp = self.self_path(e.recv)
+        sp = self.self_path(e.recv) if self.unit.get("abs_methods") else None
         am = self.unit.get("abs_methods", {}).get("%s.%s" % (sp, nm)) if sp else None
         if am is not None:
             if len(e.args) != len(am["params"]):
@@ -1188,7 +1188,7 @@ class Fn:
                 blk.bind(tv, "%s %s" % (am["lean"], " ".join(args)))
                 return tv, rt
             return "%s %s" % (am["lean"], " ".join(args)), rt
-        if nm == "get_mut" and not e.args and e.recv.kind == "var":
+        if nm == "get_mut" and not e.args and e.recv.kind == "var" and self.entry_stack:
             v = self.lookup(e.recv.name, e)
             if isinstance(v.ty, TEntry) and v.ty.kind == "O":
                 self.entry_stack[-1]["alias_from"] = v
